@@ -179,6 +179,53 @@ def check_c02(seed, tier):
                             viol.append({"case": {"cfg": cfg, "rpc": rpc, "vectorized": [r.values.tolist(), c.values.tolist()]}, "what": "vectorised selection differs"})
             finally:
                 clean()
+    # longer index arrays on a taller image: sorted subsets, repeats, NEARLY regular progressions (regular ends, irregular
+    # interior), permutations, masks — several selected lines fall into one chunk
+    for level in ("1.5", "1.1"):
+        n, m = (12, 3) if tier == "quick" else (23, 4)
+        cfg = {"seed": rng.randrange(10**9), "level": level, "images": [("HV", None)], "n_lines": n, "n_pixels": m}
+        prod = products.build(cfg)
+        path, clean = products.place(prod, "memory")
+        try:
+            full = products.twin(prod.images[0])
+            for rpc in ([5, 1024] if tier == "quick" else [1, 2, 5, 7, n, 1024]):
+                da = _open(path, records_per_chunk=rpc)["imagery/HV/data"]
+                for _ in range(60 if tier == "quick" else 400):
+                    size, axis = (n, "rows") if rng.random() < 0.8 else (m, "columns")
+                    L = rng.randint(4, 8)
+                    kind = rng.choice(["subset", "repeats", "nearly-regular", "permutation", "mask", "negative"])
+                    if kind == "subset":
+                        key = sorted(rng.sample(range(size), min(L, size)))
+                    elif kind == "repeats":
+                        key = sorted(rng.choice(range(size)) for _ in range(L))
+                    elif kind == "nearly-regular":
+                        step = rng.randint(1, max(1, (size - 1) // 3))
+                        cnt = min(L, (size - 1) // step + 1)
+                        start = rng.randint(0, size - 1 - step * (cnt - 1))
+                        key = [start + step * i for i in range(cnt)]
+                        for i in range(2, cnt - 1):
+                            key[i] = rng.randint(key[i - 1], key[-1])
+                        key[2:cnt - 1] = sorted(key[2:cnt - 1])
+                    elif kind == "permutation":
+                        key = rng.sample(range(size), min(L, size))
+                    elif kind == "negative":
+                        key = [rng.randrange(-size, size) for _ in range(L)]
+                    else:
+                        key = [rng.random() < 0.5 for _ in range(size)]
+                    arr = np.array(key, dtype=bool if kind == "mask" else int)
+                    evals += 1
+                    distinct.add((n, m, level, rpc, axis, tuple(key)))
+                    case = {"cfg": cfg, "rpc": rpc, "isel": {axis: list(key)}, "kind": kind}
+                    try:
+                        gv = da.isel(**{axis: arr}).values
+                    except Exception as e:  # noqa: BLE001
+                        viol.append({"case": case, "what": f"lazy selection raises {type(e).__name__}: {str(e)[:100]}", "key": common.failure_site(e)})
+                        continue
+                    want = full[arr] if axis == "rows" else full[:, arr]
+                    if gv.shape != want.shape or not products.same_bits(gv, want):
+                        viol.append({"case": case, "what": f"index array {list(key)} on {axis}: values differ from NumPy indexing of the loaded image"})
+        finally:
+            clean()
     if not samples:
         samples.append({"note": "see rule", "geos": geos})
     return {"name": "oracle:C02 indexing equivalence", "evaluations": evals, "distinct": len(distinct), "violations": viol, "samples": samples}
@@ -210,7 +257,8 @@ def check_c06(seed, tier):
         for level in ("1.1", "1.5"):
             cfg = {"seed": rng.randrange(10**9), "level": level, "images": [("HH", None), ("HV", None)], "n_lines": n, "n_pixels": m}
             prod = products.build(cfg)
-            path, clean = products.place(prod, rng.choice(["local", "memory"]))
+            where = "local" if (level == "1.5") == (n % 2 == 1) else "memory"   # both placements for both levels in every run
+            path, clean = products.place(prod, where)
             try:
                 rl = sorted({1, 2, 3, max(1, n - 1), n, n + 1, 2 * n, 1024, 10**9})
                 if tier == "quick":
@@ -235,6 +283,25 @@ def check_c06(seed, tier):
                         viol.append({"case": {"cfg": cfg, "rpc_pair": [base, rpc]}, "what": "trees differ: " + d})
                     elif len(samples) < 2:
                         samples.append({"cfg": cfg, "rpc_pair": [base, rpc], "nodes": len(fps[base])})
+                # the same through an index cache: written once (with one chunk size), read with every other one — what is
+                # read (every pixel, every coordinate, every attribute) may not depend on either
+                import oracle_cache
+                oracle_cache.wipe_user_cache()
+                try:
+                    w = rng.choice(rl)
+                    # (local products: on other filesystems the stored root loses its protocol — known finding of C07)
+                    if where == "local":
+                        _open(path, use_cache=True, create_cache=True, records_per_chunk=w)
+                    for rpc in (rl if where == "local" else []):
+                        evals += 1
+                        distinct.add((n, m, level, "cached", w, rpc))
+                        t = _open(path, use_cache=True, records_per_chunk=rpc)
+                        d = treecmp.diff(fps[base], treecmp.fingerprint_tree(t, skip_encoding_keys=("preferred_chunksizes",)))
+                        if d:
+                            viol.append({"case": {"cfg": cfg, "cache_written_with": w, "read_with": rpc},
+                                         "what": "tree read through the index cache differs from the uncached one: " + d})
+                finally:
+                    oracle_cache.wipe_user_cache()
             except Exception as e:  # noqa: BLE001
                 viol.append({"case": {"cfg": cfg}, "what": f"{type(e).__name__}: {e}"[:300], "key": common.failure_site(e)})
             finally:
